@@ -296,7 +296,7 @@ func checkC10(c *Ctx) {
 						lfOK = true
 					}
 				case *ssa.Return:
-					if sl, ok := x.Results[0].(*ssa.Slice); ok && sl.X == b && sl.Low == nil && sl.High != nil {
+					if sl, ok := returnedValues(x)[0].(*ssa.Slice); ok && sl.X == b && sl.Low == nil && sl.High != nil {
 						ht := bc.term(sl.High)
 						if ht.v == nt.v && ht.c == nt.c {
 							retOK = true
@@ -311,7 +311,7 @@ func checkC10(c *Ctx) {
 		nNil := 0
 		eachInstr(fn, func(b *ssa.BasicBlock, _ int, in ssa.Instruction) {
 			ret, ok := in.(*ssa.Return)
-			if !ok || len(ret.Results) != 2 || !isNilConst(ret.Results[0]) || !isNilConst(ret.Results[1]) {
+			if !ok || len(ret.Results) != 2 || !isNilConst(returnedValues(ret)[0]) || !isNilConst(returnedValues(ret)[1]) {
 				return
 			}
 			nNil++
@@ -356,14 +356,14 @@ func checkC10(c *Ctx) {
 			// returns: nil only when n == -1; otherwise the made slice
 			eachInstr(fn, func(b *ssa.BasicBlock, _ int, in ssa.Instruction) {
 				ret, ok := in.(*ssa.Return)
-				if !ok || len(ret.Results) != 2 || !isNilConst(ret.Results[1]) {
+				if !ok || len(ret.Results) != 2 || !isNilConst(returnedValues(ret)[1]) {
 					return
 				}
-				if isNilConst(ret.Results[0]) {
+				if isNilConst(returnedValues(ret)[0]) {
 					zz := bc.zoneAt(b)
 					c.Check(zz.entEQ(nt, lconst(-1)), "R4", "array null return only for length -1", ret.Pos(), "n == -1 entailed", "the array decoder returns the null array on a path where the declared length is not -1")
 				} else {
-					c.Check(ret.Results[0] == ssa.Value(mk), "R4", "array success returns the allocated slice", ret.Pos(), "non-nil even when empty", "the array decoder's success path does not return the allocated slice (an empty array could decode as null)")
+					c.Check(returnedValues(ret)[0] == ssa.Value(mk), "R4", "array success returns the allocated slice", ret.Pos(), "non-nil even when empty", "the array decoder's success path does not return the allocated slice (an empty array could decode as null)")
 				}
 			})
 		}
@@ -447,7 +447,7 @@ func checkC10(c *Ctx) {
 			if !ok || len(ret.Results) != 2 {
 				return
 			}
-			u, ok := ret.Results[1].(*ssa.UnOp)
+			u, ok := returnedValues(ret)[1].(*ssa.UnOp)
 			if !ok {
 				return
 			}
@@ -475,7 +475,7 @@ func checkC10(c *Ctx) {
 				}
 			}
 			// the whole buffer is handed out
-			if f, _ := loadedField(ret.Results[0]); f == nil || f.Name() != "buf" {
+			if f, _ := loadedField(returnedValues(ret)[0]); f == nil || f.Name() != "buf" {
 				okFull = false
 			}
 		})
